@@ -411,13 +411,38 @@ func runC25(r *simrt.Run) {
 		rsig := bytes.Equal(signed.Sig, got.Sig)
 		r.Logf("reply %d fault=%s: signed-content-same=%v sig-same=%v verify=%v", i, rfault, same, rsig, verr == nil)
 		if !same {
-			r.Check(verr != nil, "reply-verified-despite-changed-content", rfault, "a reply whose data/metadata/request data differ from what the provider signed (fault %s) still verifies", rfault)
+			r.Check(verr != nil, "reply-verified-despite-changed-content", c25ReplyDiffKind(signed, got, provView.RelayData, consumerReq.RelayData), "a reply whose data/metadata/request data differ from what the provider signed (fault %s) still verifies\n  signed reply: %s\n  got reply:    %s\n  signed request data: %s\n  checked against:     %s", rfault, canonReply(signed), canonReply(got), canonPD(provView.RelayData, false), canonPD(consumerReq.RelayData, false))
 			r.Op("reply", "changed_rejected")
 		} else if rsig {
 			r.Check(verr == nil, "reply-not-verified-for-unchanged-content", rfault, "a reply with unchanged data, metadata, request data (fault %s) and signature does not verify: %v", rfault, verr)
 			r.Op("reply", "ok")
 		}
 	}
+}
+
+// c25ReplyDiffKind names which signed part differs (stable signature of the violation).
+func c25ReplyDiffKind(signed, got *pairingtypes.RelayReply, signedPD, gotPD *pairingtypes.RelayPrivateData) string {
+	switch {
+	case !bytes.Equal(signed.Data, got.Data):
+		return "reply-data"
+	case canonReply(signed) != canonReply(got):
+		// same data, different metadata list: is the concatenation of the entries' encodings equal?
+		enc := func(r *pairingtypes.RelayReply) []byte {
+			var b []byte
+			for _, m := range r.Metadata {
+				x, _ := m.Marshal()
+				b = append(b, x...)
+			}
+			return b
+		}
+		if bytes.Equal(enc(signed), enc(got)) {
+			return "reply-metadata-entries-regrouped"
+		}
+		return "reply-metadata"
+	case canonPD(signedPD, false) != canonPD(gotPD, false):
+		return "request-data"
+	}
+	return "other"
 }
 
 // ---------------------------------------------------------------------------------------------
